@@ -143,6 +143,9 @@ loop:
 				a.last = c
 				break loop
 			}
+			if !validArchiveFilename(d.Name) {
+				return nil, InvalidFormat{fmt.Sprintf("invalid filename '%s'", d.Name)}
+			}
 			name = d.Name
 		case FormatGoodbye: // This will effectively be a "cd .."
 			if entry != nil {
@@ -213,4 +216,14 @@ loop:
 	}
 
 	return nil, nil
+}
+
+// validArchiveFilename returns true if name can be used as the name of a directory
+// entry. Names in an archive are single path elements, anything that would make the
+// entry end up elsewhere when joined with its directory is refused.
+func validArchiveFilename(name string) bool {
+	if name == "" || name == "." || name == ".." {
+		return false
+	}
+	return !strings.ContainsRune(name, '/') && !strings.ContainsRune(name, filepath.Separator) && !strings.ContainsRune(name, 0)
 }
